@@ -87,8 +87,8 @@ def wrap(header, stmts, macros=()):
 
 # ---------------------------------------------------------------- generators
 def ref_cases(tier="quick"):
-    for size in ((1, 2, 3) if tier == "quick" else (1, 2, 3, 4, 5)):
-        ints = sorted({-2, -1, 0, size - 1, size, size + 1} | (set() if tier == "quick" else {-3, 1, size - 2, size + 2, 2 * size}))
+    for size in ((1, 2, 3, 4) if tier == "quick" else (1, 2, 3, 4, 5, 6)):
+        ints = sorted({-2, -1, 0, 1, size - 1, size, size + 1} | (set() if tier == "quick" else {-3, size - 2, size + 2, 2 * size}))
         nums = ints + [0.5, 1.0]
         R = ("register", "q", size)
         # positions: name -> (header builder(valueexpr), statement builder(valueexpr), in_body)
@@ -334,8 +334,8 @@ class C14(Check):
     )
 
     def bounds(self, tier):
-        return {"register_sizes": [1, 2, 3] if tier == "quick" else [1, 2, 3, 4, 5],
-                "values": "{-2,-1,0,size-1,size,size+1,0.5,1.0}" + ("" if tier == "quick" else " + {-3,1,size-2,size+2,2*size}"), "gate_arity": [0, 3],
+        return {"register_sizes": [1, 2, 3, 4] if tier == "quick" else [1, 2, 3, 4, 5, 6],
+                "values": "{-2,-1,0,1,size-1,size,size+1,0.5,1.0}" + ("" if tier == "quick" else " + {-3,size-2,size+2,2*size}"), "gate_arity": [0, 3],
                 "native_situations": len(MODES)}
 
     def all_cases(self, tier):
